@@ -228,54 +228,85 @@ theorem toFn_msForward_exact [BEq K] [LawfulBEq K] (m : Vector K d) (F : Vector 
   funext p; simp
 
 end Ring
-/-! ### `backward`: the conjugated masks telescope in the same way when the windows are real -/
-section RingB
+/-! ### `backward`: the conjugated masks telescope in the same way (windows real or not) -/
+section RingC
 variable {K : Type} [CommRing K] {d n : ℕ}
 
-/-- windows fixed by the conjugation -/
-def WindowsReal (cj : K → K) (sps : List (Vector Bool d × Vector K d)) : Prop :=
-  ∀ sp ∈ sps, ∀ p : Fin d, cj (toFn sp.2 p) = toFn sp.2 p
+/-- the specs with conjugated windows -/
+def conjSpecs (cj : K → K) (sps : List (Vector Bool d × Vector K d)) : List (Vector Bool d × Vector K d) :=
+  sps.map fun sp => (sp.1, Vector.ofFn fun p => cj sp.2[p])
 
-theorem expMasks_map_cj (cj : K →+* K) (mm : Fin d → K) :
-    ∀ (sps : List (Vector Bool d × Vector K d)) (u : Fin d → K), WindowsReal cj sps →
-      (expMasks mm u sps).map (fun g p => cj (g p)) = expMasks (fun p => cj (mm p)) (fun p => cj (u p)) sps := by
+/-- `msSum` sees a level only through its operators: the windows do not matter -/
+theorem msSum_conjSpecs (cj : K → K) (m : Vector K d) (F : Vector (Vector K n) d) (B : Vector (Vector K d) n) (E : Vector K n) :
+    ∀ (sps : List (Vector Bool d × Vector K d)) (i : ℕ) (Ms : List (Vector K d)),
+      msSum (exactLevelsFrom m F B i (conjSpecs cj sps)) Ms E = msSum (exactLevelsFrom m F B i sps) Ms E := by
   intro sps
   induction sps with
-  | nil => intro u _; rfl
+  | nil => intro i Ms; rfl
   | cons sp sps ih =>
-    intro u hw
+    intro i Ms
+    cases Ms with
+    | nil => simp [conjSpecs, exactLevelsFrom, msSum]
+    | cons M Ms =>
+      simp only [conjSpecs, List.map_cons, exactLevelsFrom, msSum]
+      have := ih (i + 1) Ms
+      simp only [conjSpecs] at this
+      rw [this]
+      rfl
+
+theorem nested_conjSpecs (cj : K →+* K) : ∀ (sps : List (Vector Bool d × Vector K d)) (u : Fin d → K),
+    Nested u sps → Nested (fun p => cj (u p)) (conjSpecs cj sps) := by
+  intro sps
+  induction sps with
+  | nil => intro u _; trivial
+  | cons sp sps ih =>
+    intro u h
+    obtain ⟨h1, h2⟩ := h
+    refine ⟨fun p hp => ?_, ?_⟩
+    · have := h1 p hp
+      simp only [toFn_ofFn]
+      refine ⟨by rw [this.1, map_zero], ?_⟩
+      have h2' := this.2
+      simp only [toFn] at h2'
+      rw [h2', map_zero]
+    · have := ih (toFn sp.2) h2
+      simpa [conjSpecs, toFn_ofFn, toFn] using this
+
+theorem expMasks_map_conj (cj : K →+* K) (mm : Fin d → K) :
+    ∀ (sps : List (Vector Bool d × Vector K d)) (u : Fin d → K),
+      (expMasks mm u sps).map (fun g p => cj (g p)) =
+        expMasks (fun p => cj (mm p)) (fun p => cj (u p)) (conjSpecs cj sps) := by
+  intro sps
+  induction sps with
+  | nil => intro u; rfl
+  | cons sp sps ih =>
+    intro u
     cases sps with
     | nil =>
-      simp only [expMasks, List.map_cons, List.map_nil]
+      simp only [conjSpecs, expMasks, List.map_cons, List.map_nil]
       congr 1
       funext p; simp
     | cons sp' sps' =>
-      simp only [expMasks, List.map_cons]
-      have hsp : ∀ p, cj (toFn sp.2 p) = toFn sp.2 p := hw sp (by simp)
+      simp only [conjSpecs, expMasks, List.map_cons]
       congr 1
-      · funext p; simp [hsp p]
-      · have := ih (toFn sp.2) (fun q hq => hw q (by simp [hq]))
+      · funext p; simp [toFn]
+      · have := ih (toFn sp.2)
+        simp only [conjSpecs, List.map_cons] at this
         rw [this]
         congr 1
-        funext p; exact hsp p
-
-theorem windowsReal_iff [BEq K] [LawfulBEq K] (cj : K → K) (sps : List (Vector Bool d × Vector K d)) :
-    windowsReal cj sps = true → WindowsReal cj sps := by
-  intro h sp hsp p
-  simp only [windowsReal, List.all_eq_true, List.mem_finRange, true_implies, beq_iff_eq] at h
-  exact h sp hsp p
+        rw [toFn_ofFn]; rfl
 
 theorem toFn_msBackward_exact [BEq K] [LawfulBEq K] (cj : K →+* K) (m : Vector K d) (F : Vector (Vector K n) d)
     (B : Vector (Vector K d) n) (sps : List (Vector Bool d × Vector K d)) (hne : sps ≠ [])
-    (hok : nestedOK (onesVec K d) sps = true) (hw : windowsReal cj sps = true) (y : Vector K n) :
+    (hok : nestedOK (onesVec K d) sps = true) (y : Vector K n) :
     toFn (msBackward cj (exactLevels m F B sps) none y) =
       toFn (idealForward (Vector.ofFn fun p => cj m[p]) F B y) := by
-  have hN := nested_of_nestedOK sps (onesVec K d) hok
+  have hN := nested_conjSpecs cj sps _ (nested_of_nestedOK sps (onesVec K d) hok)
   have hmasks := msMasksAux_exact m F B sps [] (toFn (onesVec K d)) (by
     rw [toFn_onesVec]; funext p; simp)
   simp only [List.length_nil, List.map_nil, List.nil_append] at hmasks
   have hc : ((msMasks (exactLevels m F B sps)).map fun M => Vector.ofFn fun p => cj M[p]).map toFn =
-      expMasks (fun p => cj (toFn m p)) (toFn (onesVec K d)) sps := by
+      expMasks (fun p => cj (toFn m p)) (fun p => cj (toFn (onesVec K d) p)) (conjSpecs cj sps) := by
     have h1 : ((msMasks (exactLevels m F B sps)).map fun M => Vector.ofFn fun p => cj M[p]).map toFn =
         ((msMasks (exactLevels m F B sps)).map toFn).map (fun g p => cj (g p)) := by
       simp only [List.map_map]
@@ -284,10 +315,13 @@ theorem toFn_msBackward_exact [BEq K] [LawfulBEq K] (cj : K →+* K) (m : Vector
       simp only [Function.comp, toFn_ofFn]
       rfl
     unfold msMasks exactLevels at h1 ⊢
-    rw [h1, hmasks, expMasks_map_cj cj (toFn m) sps _ (windowsReal_iff cj sps hw)]
-    congr 1
-    rw [toFn_onesVec]; funext p; simp
-  have := msSum_exact m (fun p => cj (toFn m p)) F B y sps 0 (toFn (onesVec K d)) _ hne hN hc
+    rw [h1, hmasks, expMasks_map_conj cj (toFn m) sps _]
+  have hne' : conjSpecs cj sps ≠ [] := by
+    cases sps with
+    | nil => exact absurd rfl hne
+    | cons a b => simp [conjSpecs]
+  have := msSum_exact m (fun p => cj (toFn m p)) F B y (conjSpecs cj sps) 0 _ _ hne' hN hc
+  rw [msSum_conjSpecs] at this
   unfold msBackward
   unfold exactLevels at this ⊢
   simp only
@@ -295,5 +329,5 @@ theorem toFn_msBackward_exact [BEq K] [LawfulBEq K] (cj : K →+* K) (m : Vector
   congr 1
   funext p; simp [toFn]
 
-end RingB
+end RingC
 end HcipyVerif.Coronagraph
